@@ -1,7 +1,8 @@
 (* C04 Rebuilding with nothing changed does nothing; edits rerun only their cone.
    Property theorems only; proofs in proofs/NoopProofs.v, definitions in model/Noop.v. *)
 From Coq Require Import List NArith Bool.
-From SV Require Import lib.Bytes model.Graph model.GraphDump model.Noop gen.GenNoop proofs.NoopProofs.
+From SV Require Import lib.Bytes model.Graph model.GraphInv model.GraphDump model.Noop gen.GenNoop
+  proofs.NoopProofs proofs.NoopBridge.
 Import ListNotations.
 Open Scope N_scope.
 
@@ -10,17 +11,10 @@ Open Scope N_scope.
 (* whole: see the theorems below for the parts that are, and design.d/C04.md.                  *)
 (* ------------------------------------------------------------------------------------------ *)
 
-(* A history ends in a successful build: nothing runs, no attached step FAILED, no attached
-   required step PENDING (the pending universe of report_unbuilt is empty), every declared
-   static file confirmed; then finalize ran (revert_optional_steps, delete_detached). *)
-Definition verdict_ok_b (s : st) : bool :=
-  q_no_job_b s && q_no_unconfirmed_b s &&
-  forallb (fun r => is_detached (KStep, sl r) s ||
-                    (negb (sstate_eqb (sst r) SFailed) &&
-                     negb (sstate_eqb (sst r) SPending && required (sl r) s))) (steps s).
-Definition successful_history (cap : N) (hist : list xop) : Prop :=
-  exists pre, hist = pre ++ [XRevert; XOp OpDeleteDetached] /\
-              verdict_ok_b (run_xops pre (init_st cap)) = true.
+(* successful_history (model/Noop.v): a history ends in a successful build when nothing runs, no
+   attached step is FAILED, no attached required step is PENDING (the pending universe of
+   report_unbuilt is empty), every declared static file is confirmed (end_of_phase_b); then finalize
+   ran (revert_optional_steps, delete_detached). *)
 
 (* a build issues OpDispatch only for steps that satisfy the dispatch predicate *)
 Fixpoint dispatch_enabled (ops : list op) (s : st) : Prop :=
@@ -58,12 +52,6 @@ Definition C04_full : Prop :=
                        (produces q l' f \/ produces s' l' f) /\ (consumes q l f \/ consumes s' l f)) \/
          (exists l', In l' (executed build q1) /\
                      (creator_of (KStep, l) q = Some (KStep, l') \/ creator_of (KStep, l) s' = Some (KStep, l')))).
-
-(* The bridge between histories and the state predicate of the theorems: validated on every
-   generated successful history by the E2 correspondence (evaluated inside Coq), not proved. *)
-Definition C04_bridge : Prop :=
-  forall cap hist, successful_history cap hist ->
-                   quiescent_success_b (run_xops hist (init_st cap)) = true.
 
 (* ------------------------------------------------------------------------------------------ *)
 (* Proved                                                                                      *)
@@ -113,6 +101,62 @@ Theorem C04_skip_changes_nothing :
     file_products_in l is_outdated s = [] ->
     step_op (OpExecEnd l [] CSucceeded [] true false) s = Ok (upd_step l succeeded_row s).
 Proof. exact skip_changes_nothing. Qed.
+
+(* ---- the bridge from histories to the state predicate ------------------------------------- *)
+
+(* State form.  In a well-formed state (inv_core_b: holds after every transaction, C09) in which a
+   build phase ended successfully (end_of_phase_b), both finalize transactions succeed and leave a
+   state that satisfies quiescent_success_b.  Which clause needs what:
+   - q_no_job_b: the "no RUNNING/CHECKING step" clause of end_of_phase_b (revert writes PENDING only);
+   - q_steps_b, required steps: "no attached FAILED step", "no attached required PENDING step" and
+     "no job" leave SUCCEEDED; `required` is the same before and after both transactions (a file
+     with an attached consumer is never deleted: inv_core_b is used for the row lookups only);
+   - q_steps_b, other steps: what revert_optional writes (PENDING; BUILT/OUTDATED outputs PLANNED);
+   - q_no_deletable_b: delete_detached runs to its fixpoint (fuel = number of nodes suffices) and
+     does not fail, because a detached node's creator is a step or a tree (inv_core_b);
+   - q_no_unconfirmed_b: the same clause of end_of_phase_b. *)
+Theorem C04_bridge_state :
+  forall s : st,
+    inv_core_b s = true -> end_of_phase_b s = true ->
+    exists s1 s2, revert_optional s = Ok s1 /\ delete_detached s1 = Ok s2 /\
+                  inv_core_b s2 = true /\ quiescent_success_b s2 = true.
+Proof.
+  intros s HI Hep. apply GraphInvP.inv_core_b_iff in HI.
+  destruct (bridge_state s HI Hep) as [s1 [s2 [H1 [H2 [_ [HI2 Hq]]]]]].
+  exists s1, s2. repeat split; try assumption. apply GraphInvP.inv_core_b_iff. exact HI2.
+Qed.
+
+(* History form (the former Definition C04_bridge, now proved): for every history of transactions
+   (Graph.v alphabet + revert_optional_steps) from the empty workflow that ends in a successful
+   build, the final state satisfies quiescent_success_b. *)
+Theorem C04_bridge :
+  forall (cap : N) (hist : list xop),
+    successful_history cap hist -> quiescent_success_b (run_xops hist (init_st cap)) = true.
+Proof. exact bridge. Qed.
+
+(* At the end of a successful phase nothing satisfies the dispatch guard. *)
+Theorem C04_end_of_phase_nothing_dispatchable :
+  forall s : st, end_of_phase_b s = true -> forall l, dispatch_guard l s = false.
+Proof. intros s H. apply eop_nothing_dispatchable. apply (eop_parts s H). Qed.
+
+(* The first two clauses of C04_full, for histories: after ANY history that ends in a successful
+   build, a restart and a watch-mode rebuild with nothing changed are the identity. *)
+Theorem C04_noop_after_successful_history :
+  forall (cap : N) (hist : list xop),
+    successful_history cap hist ->
+    let q := run_xops hist (init_st cap) in
+    (forall rehash, unchanged_b q rehash = true ->
+       run_ops (startup_ops q [] rehash) q = q /\ (forall l, dispatch_guard l q = false) /\
+       revert_optional q = Ok q /\ delete_detached q = Ok q) /\
+    (forall rehash, unchanged_watch_b q rehash = true ->
+       watch_ops q rehash = [] /\ run_ops (watch_ops q rehash) q = q /\
+       (forall l, dispatch_guard l q = false) /\
+       revert_optional q = Ok q /\ delete_detached q = Ok q).
+Proof.
+  intros cap hist H q. pose proof (bridge cap hist H) as Hq. split; intros rehash Hu.
+  - exact (restart_noop q rehash Hq Hu).
+  - exact (watch_noop q rehash Hq Hu).
+Qed.
 
 (* ---- tracked environment variables -------------------------------------------------------- *)
 
